@@ -17,6 +17,16 @@
 //!         files = lists of lines, a line = () (no valid item) | (input target); pcfg = (0 cfg) | (1 (cfg ..));
 //!         tokenizer = (tokens pad prefix suffix padto?)
 //!         output = (1 min_items batches same table_ok) | (0) init fails;  batches = lists of items (input target token_ids labels)
+//! bytes:  input = (-3 files strategy (seed-hi seed-lo) epoch pcfg task qpcfg maxlen lim skip ff rank W sort shuffle prefetch blim ty
+//!                  threads buffer threads2 buffer2): as `exact`, but files = the raw BYTES of every jsonl file (the harness writes
+//!         them verbatim; which lines are items is computed by the model: Lines_Model / JSON_Model / C07_Files), every task
+//!         (task = (0 g tok) | (1 mask tok ign sep?) | (2 tok ign tok ign) | (3 tok ign (class ..))) and the modelled postprocessing
+//!         (qpcfg = (0 q) | (1 (q ..)); q = (0) | (1 (q ..)) | (2 (q ..) (prob ..)) | (3 key value (q ..)) | (4 key (value ..) (q ..)) | (5));
+//!         batches = lists of items (input target tinput), tinput = (0 ids pad label) | (1 ids pad labels) | (2 ids pad labels)
+//!         | (3 ids pad target_ids target_pad labels)
+//! item:   input = (-4 pcfg task qpcfg maxlen input target (seed-hi seed-lo) file marks): the closure `train_pipeline` returns,
+//!         applied to one (TrainData, TextDataInfo); output = (0) a constructor panics | (1 input target tinput rep) | (2 rep) | (-777)
+//! In these two lines a preprocessing stage (14 0) / (14 1) is JsonDecode(Input) / JsonDecode(Target).
 use std::collections::hash_map::DefaultHasher;
 use std::collections::HashMap;
 use std::hash::{Hash, Hasher};
@@ -113,7 +123,7 @@ impl Spec {
         if s.threads > 6 || s.threads2 > 6 || s.buffer > 16 || s.buffer2 > 16 || s.epoch > 1000 || s.seed > 1 << 40 {
             return None;
         }
-        if !(0..3).contains(&s.strategy) || !(0..4).contains(&s.pipeline) {
+        if !(0..3).contains(&s.strategy) || !(0..5).contains(&s.pipeline) {
             return None;
         }
         // weighted needs non-empty sources (constructor error otherwise)
@@ -183,15 +193,25 @@ fn pipeline_cfg(kind: i64) -> TrainPipelineConfig {
             vec![0.3, 0.2, 0.3, 0.2],
         ),
     };
-    let task = if kind == 3 {
-        TrainTaskConfig::Generation(false, tok_cfg(), false, Some(" >> ".to_string()))
+    let task = if kind == 3 || kind == 4 {
+        TrainTaskConfig::Generation(kind == 4, tok_cfg(), false, Some(" >> ".to_string()))
     } else {
         TrainTaskConfig::WhitespaceCorrection(false, tok_cfg())
+    };
+    // kind 4: the postprocessing stage the model does not have (TokenMasking draws from rand_distr::Geometric), followed
+    // by the length clipping: covered by this line only, under the purity assumption
+    let post = if kind == 4 {
+        PostprocessingFnConfig::Chain(vec![
+            PostprocessingFnConfig::TokenMasking(tok_cfg(), 0.4, 1, 0.5, "<unk>".to_string()),
+            PostprocessingFnConfig::ClipLength,
+        ])
+    } else {
+        PostprocessingFnConfig::None
     };
     TrainPipelineConfig {
         preprocessing: PreprocessingConfig::Global(pre),
         task,
-        postprocessing: PostprocessingConfig::Global(PostprocessingFnConfig::None),
+        postprocessing: PostprocessingConfig::Global(post),
     }
 }
 
@@ -232,7 +252,7 @@ impl C08 {
         let seed = s.seed + s.epoch as u64;
         let gens = paths.iter().map(train_data_generator_from_jsonl).collect::<anyhow::Result<Vec<_>>>().ok()?;
         let gen = MultiTrainDataGenerator::new(gens, strategy, Some(seed)).ok()?;
-        let (pipe, _) = train_pipeline(pipeline_cfg(s.pipeline), 512).ok()?;
+        let (pipe, _) = train_pipeline(pipeline_cfg(s.pipeline), if s.pipeline == 4 { 40 } else { 512 }).ok()?;
         let mut table = vec![];
         let mut index = HashMap::new();
         for (i, (data, file_idx)) in gen.enumerate() {
@@ -287,7 +307,7 @@ fn loader_run(
         buffer_size: buffer,
         batch_limit: s.batch_limit,
         batch_limit_type: if s.limit_type == 0 { BatchLimitType::BatchSize } else { BatchLimitType::PaddedItemSize },
-        max_length: 512,
+        max_length: if s.pipeline == 4 { 40 } else { 512 },
         shuffle: s.shuffle,
         prefetch_factor: s.prefetch,
         sort: s.sort,
@@ -350,6 +370,8 @@ enum MCfg {
     Mark(String, String),
     Prefix(bool, String),
     Suffix(bool, String),
+    /// only in the item / bytes lines (the model of the older lines has it as an opaque stage)
+    JsonDecode(bool),
 }
 
 /// f64 on the wire: (0 m e) = m * 2^e canonical (-0.0 is sent as zero), (1 0 0) +inf, (2 0 0) NaN, (3 0 0) negative
@@ -454,6 +476,15 @@ impl MCfg {
             MCfg::Mark(k, v) => t(11, vec![Val::str(k), Val::str(v)]),
             MCfg::Prefix(p, s) => t(12, vec![Val::b(*p), Val::str(s)]),
             MCfg::Suffix(p, s) => t(13, vec![Val::b(*p), Val::str(s)]),
+            MCfg::JsonDecode(p) => t(14, vec![Val::b(*p)]),
+        }
+    }
+
+    fn has_json(&self) -> bool {
+        match self {
+            MCfg::Chain(l) | MCfg::Switch(l, _) => l.iter().any(|c| c.has_json()),
+            MCfg::JsonDecode(_) => true,
+            _ => false,
         }
     }
 
@@ -499,6 +530,7 @@ impl MCfg {
             (11, 2) => MCfg::Mark(a(0)?.to_string_lossy()?, a(1)?.to_string_lossy()?),
             (12, 2) => MCfg::Prefix(a(0)?.as_bool()?, a(1)?.to_string_lossy()?),
             (13, 2) => MCfg::Suffix(a(0)?.as_bool()?, a(1)?.to_string_lossy()?),
+            (14, 1) => MCfg::JsonDecode(a(0)?.as_bool()?),
             _ => return None,
         })
     }
@@ -520,6 +552,7 @@ impl MCfg {
             MCfg::Mark(k, v) => P::Mark(k.clone(), v.clone()),
             MCfg::Prefix(p, s) => P::Prefix(part_of(*p), s.clone()),
             MCfg::Suffix(p, s) => P::Suffix(part_of(*p), s.clone()),
+            MCfg::JsonDecode(p) => P::JsonDecode(part_of(*p)),
         }
     }
 
@@ -552,6 +585,7 @@ impl MCfg {
             MCfg::Mark(..) => "mark",
             MCfg::Prefix(..) => "prefix",
             MCfg::Suffix(..) => "suffix",
+            MCfg::JsonDecode(..) => "jsondecode",
         };
         if !out.contains(&n) {
             out.push(n);
@@ -791,7 +825,7 @@ fn direct_run(input: &Val) -> Option<(Val, Vec<String>)> {
             _ => false,
         }
     }
-    if neg_switch(&cfg) {
+    if neg_switch(&cfg) || cfg.has_json() {
         return None;
     }
     let inp = l[2].to_string_lossy()?;
@@ -1199,7 +1233,7 @@ impl C08 {
                 _ => false,
             }
         }
-        if s.cfgs.iter().any(neg_switch) || s.cfgs.is_empty() {
+        if s.cfgs.iter().any(neg_switch) || s.cfgs.is_empty() || s.cfgs.iter().any(|c| c.has_json()) {
             return None;
         }
         std::fs::create_dir_all(&self.dir).ok()?;
@@ -1351,17 +1385,1047 @@ impl C08 {
     }
 }
 
+// ---------------------------------------------------------------------------------------------
+// item line and byte loader line: every task, the modelled postprocessing, files as raw bytes
+// (Pipeline_Tasks.v, C08_Bytes.v)
+// ---------------------------------------------------------------------------------------------
+
+impl TokSpec {
+    fn to_val(&self) -> Val {
+        Val::L(vec![
+            strs_val(&self.tokens),
+            Val::str(&self.pad),
+            strs_val(&self.prefix),
+            strs_val(&self.suffix),
+            Val::opt(self.padto, Val::u),
+        ])
+    }
+    fn from_val(v: &Val) -> Option<TokSpec> {
+        let t = v.as_l()?;
+        if t.len() != 5 {
+            return None;
+        }
+        let padto = match t[4].as_l()? {
+            [] => None,
+            [k] => Some(k.as_usize()?),
+            _ => return None,
+        };
+        // pad_to_multiple_of must be a power of two (an assertion of the constructor); the model does not have it
+        if padto.map(|k| !k.is_power_of_two() || k > 64).unwrap_or(false) {
+            return None;
+        }
+        let tok = TokSpec { tokens: val_strs(&t[0])?, pad: t[1].to_string_lossy()?, prefix: val_strs(&t[2])?, suffix: val_strs(&t[3])?, padto };
+        // the scanner of the model takes the special tokens in list order, the code in hash order: same result when no
+        // token is a prefix of another one and none is empty
+        for (i, a) in tok.tokens.iter().enumerate() {
+            if a.is_empty() || a.starts_with("<extra_token_") {
+                return None;
+            }
+            for (j, b) in tok.tokens.iter().enumerate() {
+                if i != j && a != b && b.starts_with(a.as_str()) {
+                    return None;
+                }
+            }
+        }
+        if tok.tokens.len() > 8 {
+            return None;
+        }
+        Some(tok)
+    }
+    fn to_real(&self) -> TokenizerConfig {
+        TokenizerConfig {
+            tokenize: TokenizeConfig::Byte(ByteTokenizerConfig {
+                use_graphemes: false,
+                pad_to_multiple_of: self.padto,
+                groups: ByteGroups::Bytes,
+                aggregation: GroupAggregation::Mean,
+            }),
+            special: SpecialConfig {
+                pad: self.pad.clone(),
+                tokens: self.tokens.clone(),
+                prefix: self.prefix.clone(),
+                suffix: self.suffix.clone(),
+            },
+        }
+    }
+}
+
+#[derive(Clone, Debug)]
+enum TaskSpec {
+    Wsc(bool, TokSpec),
+    Gen(bool, TokSpec, bool, Option<String>),
+    Cond(TokSpec, bool, TokSpec, bool),
+    Class(TokSpec, bool, Vec<String>),
+}
+
+impl TaskSpec {
+    fn to_val(&self) -> Val {
+        match self {
+            TaskSpec::Wsc(g, t) => Val::L(vec![Val::I(0), Val::b(*g), t.to_val()]),
+            TaskSpec::Gen(m, t, ign, sep) => {
+                Val::L(vec![Val::I(1), Val::b(*m), t.to_val(), Val::b(*ign), Val::opt(sep.as_ref(), |s| Val::str(s))])
+            }
+            TaskSpec::Cond(ti, ii, tt, it) => Val::L(vec![Val::I(2), ti.to_val(), Val::b(*ii), tt.to_val(), Val::b(*it)]),
+            TaskSpec::Class(t, ign, cl) => Val::L(vec![Val::I(3), t.to_val(), Val::b(*ign), strs_val(cl)]),
+        }
+    }
+    fn from_val(v: &Val) -> Option<TaskSpec> {
+        let l = v.as_l()?;
+        Some(match (l.first()?.as_i()?, l.len()) {
+            (0, 3) => TaskSpec::Wsc(l[1].as_bool()?, TokSpec::from_val(&l[2])?),
+            (1, 5) => {
+                let sep = match l[4].as_l()? {
+                    [] => None,
+                    [s] => Some(s.to_string_lossy()?),
+                    _ => return None,
+                };
+                TaskSpec::Gen(l[1].as_bool()?, TokSpec::from_val(&l[2])?, l[3].as_bool()?, sep)
+            }
+            (2, 5) => TaskSpec::Cond(TokSpec::from_val(&l[1])?, l[2].as_bool()?, TokSpec::from_val(&l[3])?, l[4].as_bool()?),
+            (3, 4) => {
+                let cl = val_strs(&l[3])?;
+                if cl.len() > 8 {
+                    return None;
+                }
+                TaskSpec::Class(TokSpec::from_val(&l[1])?, l[2].as_bool()?, cl)
+            }
+            _ => return None,
+        })
+    }
+    fn to_real(&self) -> TrainTaskConfig {
+        match self {
+            TaskSpec::Wsc(g, t) => TrainTaskConfig::WhitespaceCorrection(*g, t.to_real()),
+            TaskSpec::Gen(m, t, ign, sep) => TrainTaskConfig::Generation(*m, t.to_real(), *ign, sep.clone()),
+            TaskSpec::Cond(ti, ii, tt, it) => TrainTaskConfig::ConditionalGeneration(ti.to_real(), *ii, tt.to_real(), *it),
+            TaskSpec::Class(t, ign, cl) => TrainTaskConfig::Classification(t.to_real(), *ign, cl.clone()),
+        }
+    }
+    fn name(&self) -> &'static str {
+        match self {
+            TaskSpec::Wsc(..) => "task-wsc",
+            TaskSpec::Gen(..) => "task-gen",
+            TaskSpec::Cond(..) => "task-cond",
+            TaskSpec::Class(..) => "task-class",
+        }
+    }
+}
+
+#[derive(Clone, Debug, PartialEq)]
+enum QCfg {
+    None,
+    Chain(Vec<QCfg>),
+    Switch(Vec<QCfg>, Vec<f64>),
+    OnMark(String, String, Vec<QCfg>),
+    SwitchOnMark(String, Vec<String>, Vec<QCfg>),
+    Clip,
+}
+
+impl QCfg {
+    fn to_val(&self) -> Val {
+        let sub = |l: &Vec<QCfg>| Val::L(l.iter().map(|c| c.to_val()).collect());
+        match self {
+            QCfg::None => Val::L(vec![Val::I(0)]),
+            QCfg::Chain(l) => Val::L(vec![Val::I(1), sub(l)]),
+            QCfg::Switch(l, ps) => Val::L(vec![Val::I(2), sub(l), Val::L(ps.iter().map(|p| f64_val(*p)).collect())]),
+            QCfg::OnMark(k, v, l) => Val::L(vec![Val::I(3), Val::str(k), Val::str(v), sub(l)]),
+            QCfg::SwitchOnMark(k, vs, l) => Val::L(vec![Val::I(4), Val::str(k), strs_val(vs), sub(l)]),
+            QCfg::Clip => Val::L(vec![Val::I(5)]),
+        }
+    }
+    fn from_val(v: &Val, depth: usize) -> Option<QCfg> {
+        if depth > 5 {
+            return None;
+        }
+        let l = v.as_l()?;
+        let list = |v: &Val| -> Option<Vec<QCfg>> {
+            let l = v.as_l()?;
+            if l.len() > 6 {
+                return None;
+            }
+            l.iter().map(|c| QCfg::from_val(c, depth + 1)).collect()
+        };
+        Some(match (l.first()?.as_i()?, l.len()) {
+            (0, 1) => QCfg::None,
+            (1, 2) => QCfg::Chain(list(&l[1])?),
+            (2, 3) => {
+                let ps = l[2].as_l()?;
+                if ps.len() > 8 {
+                    return None;
+                }
+                QCfg::Switch(list(&l[1])?, ps.iter().map(val_f64).collect::<Option<Vec<f64>>>()?)
+            }
+            (3, 4) => QCfg::OnMark(l[1].to_string_lossy()?, l[2].to_string_lossy()?, list(&l[3])?),
+            (4, 4) => {
+                let vs = val_strs(&l[2])?;
+                if vs.len() > 8 {
+                    return None;
+                }
+                QCfg::SwitchOnMark(l[1].to_string_lossy()?, vs, list(&l[3])?)
+            }
+            (5, 1) => QCfg::Clip,
+            _ => return None,
+        })
+    }
+    fn to_real(&self) -> PostprocessingFnConfig {
+        use PostprocessingFnConfig as Q;
+        let sub = |l: &Vec<QCfg>| l.iter().map(|c| c.to_real()).collect::<Vec<_>>();
+        match self {
+            QCfg::None => Q::None,
+            QCfg::Chain(l) => Q::Chain(sub(l)),
+            QCfg::Switch(l, ps) => Q::Switch(sub(l), ps.clone()),
+            QCfg::OnMark(k, v, l) => Q::OnMark(k.clone(), v.clone(), sub(l)),
+            QCfg::SwitchOnMark(k, vs, l) => Q::SwitchOnMark(k.clone(), vs.clone(), sub(l)),
+            QCfg::Clip => Q::ClipLength,
+        }
+    }
+    fn neg_switch(&self) -> bool {
+        match self {
+            QCfg::Chain(l) | QCfg::OnMark(_, _, l) | QCfg::SwitchOnMark(_, _, l) => l.iter().any(|c| c.neg_switch()),
+            QCfg::Switch(l, ps) => ps.iter().any(|p| *p < 0.0) || l.iter().any(|c| c.neg_switch()),
+            _ => false,
+        }
+    }
+    fn names(&self, out: &mut Vec<&'static str>) {
+        let n = match self {
+            QCfg::None => "q-none",
+            QCfg::Chain(l) => {
+                l.iter().for_each(|c| c.names(out));
+                "q-chain"
+            }
+            QCfg::Switch(l, _) => {
+                l.iter().for_each(|c| c.names(out));
+                "q-switch"
+            }
+            QCfg::OnMark(_, _, l) => {
+                l.iter().for_each(|c| c.names(out));
+                "q-onmark"
+            }
+            QCfg::SwitchOnMark(_, _, l) => {
+                l.iter().for_each(|c| c.names(out));
+                "q-switchonmark"
+            }
+            QCfg::Clip => "q-clip",
+        };
+        if !out.contains(&n) {
+            out.push(n);
+        }
+    }
+}
+
+fn mcfg_neg_switch(c: &MCfg) -> bool {
+    match c {
+        MCfg::Chain(l) => l.iter().any(mcfg_neg_switch),
+        MCfg::Switch(l, ps) => ps.iter().any(|p| *p < 0.0) || l.iter().any(mcfg_neg_switch),
+        _ => false,
+    }
+}
+
+/// (per_source, configurations) <-> (0 c) | (1 (c ..))
+fn pcfg_val<T>(per_source: bool, cfgs: &[T], f: impl Fn(&T) -> Val) -> Val {
+    if per_source {
+        Val::L(vec![Val::I(1), Val::L(cfgs.iter().map(f).collect())])
+    } else {
+        Val::L(vec![Val::I(0), f(&cfgs[0])])
+    }
+}
+fn val_pcfg<T>(v: &Val, f: impl Fn(&Val) -> Option<T>) -> Option<(bool, Vec<T>)> {
+    let pc = v.as_l()?;
+    if pc.len() != 2 {
+        return None;
+    }
+    match pc[0].as_i()? {
+        0 => Some((false, vec![f(&pc[1])?])),
+        1 => {
+            let l = pc[1].as_l()?;
+            if l.len() > 4 {
+                return None;
+            }
+            Some((true, l.iter().map(f).collect::<Option<Vec<T>>>()?))
+        }
+        _ => None,
+    }
+}
+
+#[derive(Clone, Debug)]
+struct PipeSpec {
+    per_source: bool,
+    cfgs: Vec<MCfg>,
+    task: TaskSpec,
+    q_per_source: bool,
+    qcfgs: Vec<QCfg>,
+    maxlen: usize,
+}
+
+impl PipeSpec {
+    fn from_vals(p: &Val, t: &Val, q: &Val, m: &Val) -> Option<PipeSpec> {
+        let (per_source, cfgs) = val_pcfg(p, |c| MCfg::from_val(c, 0))?;
+        let (q_per_source, qcfgs) = val_pcfg(q, |c| QCfg::from_val(c, 0))?;
+        let maxlen = m.as_usize()?;
+        if maxlen > 100_000 || cfgs.iter().any(mcfg_neg_switch) || qcfgs.iter().any(|c| c.neg_switch()) {
+            return None;
+        }
+        Some(PipeSpec { per_source, cfgs, task: TaskSpec::from_val(t)?, q_per_source, qcfgs, maxlen })
+    }
+    fn vals(&self) -> [Val; 4] {
+        [
+            pcfg_val(self.per_source, &self.cfgs, |c| c.to_val()),
+            self.task.to_val(),
+            pcfg_val(self.q_per_source, &self.qcfgs, |c| c.to_val()),
+            Val::u(self.maxlen),
+        ]
+    }
+    fn to_real(&self) -> TrainPipelineConfig {
+        TrainPipelineConfig {
+            preprocessing: if self.per_source {
+                PreprocessingConfig::PerSource(self.cfgs.iter().map(|c| c.to_real()).collect())
+            } else {
+                PreprocessingConfig::Global(self.cfgs[0].to_real())
+            },
+            task: self.task.to_real(),
+            postprocessing: if self.q_per_source {
+                PostprocessingConfig::PerSource(self.qcfgs.iter().map(|c| c.to_real()).collect())
+            } else {
+                PostprocessingConfig::Global(self.qcfgs[0].to_real())
+            },
+        }
+    }
+    fn tags(&self, tags: &mut Vec<String>) {
+        let mut names = vec![];
+        self.cfgs.iter().for_each(|c| c.names(&mut names));
+        self.qcfgs.iter().for_each(|c| c.names(&mut names));
+        tags.extend(names.iter().map(|n| n.to_string()));
+        tags.push(self.task.name().to_string());
+    }
+}
+
+fn ids_u32(l: &[u32]) -> Val {
+    Val::L(l.iter().map(|x| Val::I(*x as i64)).collect())
+}
+fn ids_i32(l: &[i32]) -> Val {
+    Val::L(l.iter().map(|x| Val::I(*x as i64)).collect())
+}
+
+fn tinput_val(t: &text_utils::data::TrainTaskInput) -> Val {
+    use text_utils::data::TrainTaskInput as T;
+    match t {
+        T::Classification { token_ids, pad_token_id, label } => {
+            Val::L(vec![Val::I(0), ids_u32(token_ids), Val::I(*pad_token_id as i64), Val::I(*label as i64)])
+        }
+        T::SequenceClassification { token_ids, pad_token_id, labels } => {
+            Val::L(vec![Val::I(1), ids_u32(token_ids), Val::I(*pad_token_id as i64), ids_i32(labels)])
+        }
+        T::Generation { token_ids, pad_token_id, labels } => {
+            Val::L(vec![Val::I(2), ids_u32(token_ids), Val::I(*pad_token_id as i64), ids_i32(labels)])
+        }
+        T::ConditionalGeneration { token_ids, pad_token_id, target_token_ids, target_pad_token_id, labels } => Val::L(vec![
+            Val::I(3),
+            ids_u32(token_ids),
+            Val::I(*pad_token_id as i64),
+            ids_u32(target_token_ids),
+            Val::I(*target_pad_token_id as i64),
+            ids_i32(labels),
+        ]),
+    }
+}
+
+fn titem_val(it: &TrainItem) -> Val {
+    Val::L(vec![Val::str(it.data.verif_input()), Val::str(it.data.verif_target()), tinput_val(&it.input)])
+}
+
+fn gen_tok(rng: &mut Rng) -> TokSpec {
+    TokSpec {
+        tokens: ["<unk>", "<bos>", "<eos>", "<pad>"].iter().map(|s| s.to_string()).collect(),
+        pad: "<pad>".to_string(),
+        prefix: match rng.below(4) {
+            0 | 1 => vec![],
+            2 => vec!["<bos>".to_string()],
+            _ => vec!["<bos>".to_string(), "<unk>".to_string()],
+        },
+        suffix: match rng.below(3) {
+            0 => vec![],
+            1 => vec!["<eos>".to_string()],
+            _ => vec!["<eos>".to_string(), "<pad>".to_string()],
+        },
+        padto: if rng.chance(1, 4) { Some(8) } else { None },
+    }
+}
+
+const CLASSES: &[&str] = &["pos", "neg", "neu", "é", ""];
+
+fn gen_task(rng: &mut Rng) -> TaskSpec {
+    match rng.below(8) {
+        0 | 1 => TaskSpec::Wsc(rng.chance(1, 3), gen_tok(rng)),
+        2 | 3 | 4 => TaskSpec::Gen(
+            rng.chance(1, 2),
+            gen_tok(rng),
+            rng.chance(1, 2),
+            match rng.below(4) {
+                0 => None,
+                1 => Some(" >> ".to_string()),
+                2 => Some("<eos>".to_string()),
+                _ => Some("".to_string()),
+            },
+        ),
+        5 | 6 => TaskSpec::Cond(gen_tok(rng), rng.chance(1, 2), gen_tok(rng), rng.chance(1, 2)),
+        _ => {
+            let n = rng.range(2, 4);
+            let mut cl: Vec<String> = (0..n).map(|i| CLASSES[i].to_string()).collect();
+            // the Rust constructor does not refuse a class listed twice: the later index wins
+            if rng.chance(1, 6) {
+                cl.push("pos".to_string());
+            }
+            TaskSpec::Class(gen_tok(rng), rng.chance(1, 2), cl)
+        }
+    }
+}
+
+/// a postprocessing configuration; `marks` = (key, values) pairs the preprocessing is known to set (so that
+/// `switch_on_mark` does not panic); `safe` = no configuration that can panic at a call
+fn gen_qcfg(rng: &mut Rng, depth: usize, safe: bool) -> QCfg {
+    if depth == 0 || rng.chance(2, 5) {
+        return match rng.below(4) {
+            0 => QCfg::None,
+            _ => QCfg::Clip,
+        };
+    }
+    let sub = |rng: &mut Rng, n: usize| -> Vec<QCfg> { (0..n).map(|_| gen_qcfg(rng, depth - 1, safe)).collect() };
+    match rng.below(5) {
+        0 => {
+            let n = rng.below(4);
+            QCfg::Chain(sub(rng, n))
+        }
+        1 => {
+            let n = if rng.chance(1, 20) && !safe { 0 } else { rng.range(1, 3) };
+            let ps = if n == 0 { vec![] } else { gen_switch_probs(rng, n) };
+            let ps = if safe && ps.len() != n { (0..n).map(|_| 1.0 / n as f64).collect() } else { ps };
+            QCfg::Switch(sub(rng, n), ps)
+        }
+        2 | 3 => {
+            let n = rng.below(3);
+            QCfg::OnMark(rng.pick(&["k", "m", "z"]).to_string(), rng.pick(&["v", "w", "old"]).to_string(), sub(rng, n))
+        }
+        _ => {
+            // the preprocessing of the safe family sets k = v or k = w
+            let mut vs: Vec<String> = vec!["v".into(), "w".into()];
+            if rng.chance(1, 3) {
+                vs.push("old".into());
+            }
+            if !safe && rng.chance(1, 8) {
+                vs.push("v".into()); // not unique: the constructor panics
+            }
+            let n = if !safe && rng.chance(1, 10) { vs.len() + 1 } else { vs.len() };
+            QCfg::SwitchOnMark("k".into(), vs, sub(rng, n))
+        }
+    }
+}
+
+fn q_uses_switch_on_mark(c: &QCfg) -> bool {
+    match c {
+        QCfg::Chain(l) | QCfg::Switch(l, _) | QCfg::OnMark(_, _, l) => l.iter().any(q_uses_switch_on_mark),
+        QCfg::SwitchOnMark(..) => true,
+        _ => false,
+    }
+}
+
+/// texts for the generation / classification tasks: special tokens inside, also split over input and target
+fn gen_text_sp(rng: &mut Rng, max: usize) -> String {
+    let mut s = gen_text(rng, max);
+    if rng.chance(1, 4) {
+        let t = *rng.pick(&["<eos>", "<bos>", "<pad>", "<unk>", "<pa", "d>", "<eos", "<", ">"]);
+        let at = if s.is_empty() { 0 } else { rng.below(s.chars().count() + 1) };
+        let byte_at = s.char_indices().nth(at).map(|(i, _)| i).unwrap_or(s.len());
+        s.insert_str(byte_at, t);
+    }
+    s
+}
+
+fn gen_item_texts(rng: &mut Rng, task: &TaskSpec) -> (String, String) {
+    match task {
+        TaskSpec::Wsc(..) => gen_line(rng).unwrap_or_else(|| ("a b".into(), "ab".into())),
+        TaskSpec::Class(_, _, cl) => {
+            let t = if rng.chance(1, 8) { "other".to_string() } else { rng.pick(cl).clone() };
+            (gen_text_sp(rng, 10), t)
+        }
+        TaskSpec::Gen(..) if rng.chance(1, 10) => {
+            // a special token split over input and target
+            let (a, b) = *rng.pick(&[("<pa", "d>"), ("x<eos", ">y"), ("<", "bos>"), ("<eos>", "<eos>")]);
+            (a.to_string(), b.to_string())
+        }
+        _ => (gen_text_sp(rng, 10), gen_text_sp(rng, 10)),
+    }
+}
+
+/// the preprocessing of the two new lines: the families of the exact line, now and then with JsonDecode and marks
+fn gen_pre_cfg(rng: &mut Rng, task: &TaskSpec, mark: bool) -> MCfg {
+    let base = match task {
+        TaskSpec::Wsc(..) => gen_pipeline_cfg(rng),
+        _ => match rng.below(6) {
+            0 => MCfg::None,
+            1 => MCfg::Clean(false, rng.chance(1, 2)),
+            2 => MCfg::Chain(vec![MCfg::Clean(false, false), MCfg::Prefix(false, "> ".into())]),
+            3 => MCfg::Switch(vec![MCfg::Suffix(false, " <".into()), MCfg::None], vec![0.5, 0.5]),
+            4 => MCfg::WsCorrupt(false, 0.3, 0.3, false),
+            _ => safe_cfg(gen_cfg(rng, 2), 24),
+        },
+    };
+    if !mark {
+        return base;
+    }
+    // sets the mark k to v or w, chosen from the item's seed
+    MCfg::Chain(vec![
+        base,
+        MCfg::Switch(vec![MCfg::Mark("k".into(), "v".into()), MCfg::Mark("k".into(), "w".into())], vec![0.5, 0.5]),
+    ])
+}
+
+fn gen_pipe_spec(rng: &mut Rng, nfiles: usize, safe: bool) -> PipeSpec {
+    let task = gen_task(rng);
+    let q_per_source = rng.chance(1, 6);
+    let qcfgs: Vec<QCfg> = (0..if q_per_source { nfiles } else { 1 }).map(|_| gen_qcfg(rng, 2, safe)).collect();
+    let mark = qcfgs.iter().any(q_uses_switch_on_mark) || rng.chance(1, 4);
+    let per_source = rng.chance(1, 6);
+    let mut cfgs: Vec<MCfg> = (0..if per_source { nfiles } else { 1 }).map(|_| gen_pre_cfg(rng, &task, mark)).collect();
+    if !safe && rng.chance(1, 6) {
+        // an unprotected configuration: substring bounds that can panic, a mark that may be missing
+        cfgs[0] = gen_cfg(rng, 2);
+    }
+    PipeSpec {
+        per_source,
+        cfgs,
+        task,
+        q_per_source,
+        qcfgs,
+        maxlen: *rng.pick(&[0, 1, 2, 3, 5, 8, 13, 512, 512, 512]),
+    }
+}
+
+fn item_gen(rng: &mut Rng) -> Val {
+    let mut spec = gen_pipe_spec(rng, 2, false);
+    let (mut input, target) = gen_item_texts(rng, &spec.task);
+    // JsonDecode: the input is a json string literal (now and then not)
+    if rng.chance(1, 5) {
+        let lit = match rng.below(6) {
+            0 => input.clone(),
+            1 => format!(" {} \n", serde_json::to_string(&input).unwrap()),
+            2 => format!("{} x", serde_json::to_string(&input).unwrap()),
+            3 => "[\"a\"]".to_string(),
+            4 => "\"a\\u00e9\\ud83d\\ude00\\n\"".to_string(),
+            _ => serde_json::to_string(&input).unwrap(),
+        };
+        input = lit;
+        let c0 = spec.cfgs[0].clone();
+        spec.cfgs[0] = MCfg::Chain(vec![MCfg::JsonDecode(false), c0]);
+    }
+    let seed = if rng.chance(1, 6) { rng.next_u64() } else { rng.below(5000) as u64 };
+    let mut marks = HashMap::new();
+    if rng.chance(1, 3) {
+        marks.insert("k".to_string(), rng.pick(&["old", "v", "w", "x"]).to_string());
+    }
+    if rng.chance(1, 10) {
+        marks.insert("z".to_string(), "v".to_string());
+    }
+    let [p, t, q, m] = spec.vals();
+    Val::L(vec![Val::I(-4), p, t, q, m, Val::str(&input), Val::str(&target), hl(seed), Val::u(rng.below(3)), marks_val(&marks)])
+}
+
+fn item_run(input: &Val) -> Option<(Val, Vec<String>)> {
+    let l = input.as_l()?;
+    if l.len() != 10 {
+        return None;
+    }
+    let spec = PipeSpec::from_vals(&l[1], &l[2], &l[3], &l[4])?;
+    let inp = l[5].to_string_lossy()?;
+    let tgt = l[6].to_string_lossy()?;
+    if inp.chars().count() > 400 || tgt.chars().count() > 400 {
+        return None;
+    }
+    let info = TextDataInfo { seed: un_hl(&l[7])?, file_idx: l[8].as_usize()?, marks: val_marks(&l[9])? };
+    let mut tags = vec!["item".to_string()];
+    spec.tags(&mut tags);
+    let real = spec.to_real();
+    let maxlen = spec.maxlen;
+    let pipe = match std::panic::catch_unwind(move || train_pipeline(real, maxlen)) {
+        Ok(Ok((pipe, _))) => pipe,
+        _ => {
+            tags.push("rejected".into());
+            return Some((Val::L(vec![Val::I(0)]), tags));
+        }
+    };
+    let once = || -> Vec<Val> {
+        let data = text_utils::data::TrainData::new(inp.clone(), Some(tgt.clone()));
+        let info = info.clone();
+        let pipe = pipe.clone();
+        match std::panic::catch_unwind(std::panic::AssertUnwindSafe(move || pipe((data, info)))) {
+            Err(_) => vec![Val::I(-777)],
+            Ok(Err(_)) => vec![Val::I(2)],
+            Ok(Ok(it)) => vec![Val::I(1), Val::str(it.data.verif_input()), Val::str(it.data.verif_target()), tinput_val(&it.input)],
+        }
+    };
+    let first = once();
+    let second = once();
+    let third = std::thread::scope(|s| s.spawn(|| once()).join().ok());
+    let rep = second == first && third.as_ref() == Some(&first);
+    let mut out = first;
+    match out[0] {
+        Val::I(1) => {
+            tags.push("ok".into());
+            if spec.cfgs.iter().map(|c| c.nodes()).sum::<usize>() + spec.qcfgs.iter().filter(|q| **q != QCfg::None).count() >= 2 {
+                tags.push("nt".into());
+            }
+            out.push(Val::b(rep));
+        }
+        Val::I(2) => {
+            tags.push("err".into());
+            out.push(Val::b(rep));
+        }
+        _ => {
+            tags.push("panic".into());
+            if !rep {
+                out = vec![Val::I(-779)];
+            }
+        }
+    }
+    Some((Val::L(out), tags))
+}
+
+// ---- files as bytes -------------------------------------------------------------------------
+
+/// json.dumps(s) of Python with ensure_ascii
+fn py_string(s: &str) -> String {
+    let mut o = String::from("\"");
+    for c in s.chars() {
+        match c {
+            '"' => o.push_str("\\\""),
+            '\\' => o.push_str("\\\\"),
+            '\n' => o.push_str("\\n"),
+            '\r' => o.push_str("\\r"),
+            '\t' => o.push_str("\\t"),
+            '\u{8}' => o.push_str("\\b"),
+            '\u{c}' => o.push_str("\\f"),
+            ' '..='~' => o.push(c),
+            _ => {
+                let mut b = [0u16; 2];
+                for u in c.encode_utf16(&mut b) {
+                    o.push_str(&format!("\\u{:04x}", u));
+                }
+            }
+        }
+    }
+    o.push('"');
+    o
+}
+
+/// the bytes of a jsonl line (no terminator) holding the item, in one of several writers' styles
+fn item_line_bytes(rng: &mut Rng, i: &str, t: &str) -> Vec<u8> {
+    let style = rng.below(6);
+    let q = |s: &str| -> String {
+        match style {
+            1 => py_string(s),
+            _ => serde_json::to_string(s).unwrap(),
+        }
+    };
+    let line = match style {
+        0 if i == t => format!("{{\"input\":{}}}", q(i)),
+        0 => format!("{{\"input\":{},\"target\":{}}}", q(i), q(t)),
+        1 => format!("{{\"input\": {}, \"target\": {}}}", q(i), q(t)),
+        2 => format!("{{\"target\": {}, \"input\": {}, \"extra\": [1, {{\"input\": \"inner\"}}, null]}}", q(t), q(i)),
+        // a key given twice: the last one counts
+        3 => format!("{{\"input\": \"first\", \"target\": {}, \"input\": {}}}", q(t), q(i)),
+        4 => format!(" \t{{ \"input\" : {} ,\t\"target\":{} }} \t", q(i), q(t)),
+        _ => format!("{{\"inpu\\u0074\":{},\"\\u0074arget\":{},\"id\":1e2}}", q(i), q(t)),
+    };
+    let mut b = line.into_bytes();
+    // a text with U+E000 stands for "invalid UTF-8 at this place" (only in the styles that write it unescaped): the reader
+    // turns the bytes into U+FFFD, the line stays an item
+    if style != 1 {
+        let bad: &[u8] = *rng.pick(&[&b"\xff"[..], b"\xc3", b"\xe2\x82", b"\xed\xa0\x80", b"\xf0\x9f\x98", b"\xc0\xaf"]);
+        let pat = "\u{e000}".as_bytes();
+        while let Some(pos) = b.windows(pat.len()).position(|w| w == pat) {
+            b.splice(pos..pos + pat.len(), bad.iter().cloned());
+        }
+    }
+    b
+}
+
+/// a line that is no item (the loader drops it, its position counts)
+fn broken_line_bytes(rng: &mut Rng) -> Vec<u8> {
+    const ZOO: &[&[u8]] = &[
+        b"",
+        b" ",
+        b"\r",
+        b"{\"input\": \"broken",
+        b"{\"target\": \"no input\"}",
+        b"{\"input\": 5, \"target\": \"x\"}",
+        b"{\"input\": \"x\", \"target\": [1]}",
+        b"{\"input\": \"x\", \"target\": null}",
+        b"[\"input\", \"x\"]",
+        b"\"input\"",
+        b"null",
+        b"{\"input\": \"a\"} x",
+        b"{\"input\": \"a\"}{\"input\": \"b\"}",
+        b"{\"input\": \"a\",}",
+        b"{\"Input\": \"a\"}",
+        b"{\"input\": \"a\tb\"}",
+        b"{\"input\": \"\\ud800\"}",
+        b"{\"input\": \"a\", \"n\": 1e999}",
+        b"{\"input\": \"a\", \"n\": 01}",
+        b"\xef\xbb\xbf{\"input\": \"a\"}",
+        b"{\"input\": \"a\"\xff}",
+        b"\xff\xfe",
+        b"{'input': 'a'}",
+        b"{\"input\": \"x\", \"input\": 3}",
+    ];
+    if rng.chance(1, 12) {
+        // nesting beyond serde_json's recursion limit in a key the loader does not read
+        let n = *rng.pick(&[127usize, 128, 129]);
+        let mut b = format!("{{\"input\": \"deep\", \"z\": {}1{}}}", "[".repeat(n), "]".repeat(n)).into_bytes();
+        if n < 128 {
+            // this one IS an item; keep it broken by cutting the end
+            b.pop();
+        }
+        return b;
+    }
+    rng.pick(ZOO).to_vec()
+}
+
+fn gen_bfile(rng: &mut Rng, lines: &[Option<(String, String)>]) -> Vec<u8> {
+    let mut f = vec![];
+    let crlf_file = rng.chance(1, 5);
+    for (k, l) in lines.iter().enumerate() {
+        match l {
+            Some((i, t)) => f.extend_from_slice(&item_line_bytes(rng, i, t)),
+            None => f.extend_from_slice(&broken_line_bytes(rng)),
+        }
+        if k + 1 == lines.len() && rng.chance(1, 3) {
+            break; // no final newline
+        }
+        if crlf_file || rng.chance(1, 8) {
+            f.push(b'\r');
+        }
+        f.push(b'\n');
+    }
+    f
+}
+
+#[derive(Clone, Debug)]
+struct BSpec {
+    files: Vec<Vec<u8>>,
+    strategy: i64,
+    seed: u64,
+    epoch: usize,
+    pipe: PipeSpec,
+    lim: i64,
+    skip: usize,
+    ff: usize,
+    rank: usize,
+    world: usize,
+    sort: bool,
+    shuffle: bool,
+    prefetch: usize,
+    blim: usize,
+    ty: i64,
+    threads: u8,
+    buffer: usize,
+    threads2: u8,
+    buffer2: usize,
+}
+
+impl BSpec {
+    fn to_val(&self) -> Val {
+        let [p, t, q, m] = self.pipe.vals();
+        Val::L(vec![
+            Val::I(-3),
+            Val::L(self.files.iter().map(|f| Val::bytes(f)).collect()),
+            Val::I(self.strategy),
+            hl(self.seed),
+            Val::u(self.epoch),
+            p,
+            t,
+            q,
+            m,
+            Val::I(self.lim),
+            Val::u(self.skip),
+            Val::u(self.ff),
+            Val::u(self.rank),
+            Val::u(self.world),
+            Val::b(self.sort),
+            Val::b(self.shuffle),
+            Val::u(self.prefetch),
+            Val::u(self.blim),
+            Val::I(self.ty),
+            Val::u(self.threads as usize),
+            Val::u(self.buffer),
+            Val::u(self.threads2 as usize),
+            Val::u(self.buffer2),
+        ])
+    }
+
+    fn from_val(v: &Val) -> Option<BSpec> {
+        let l = v.as_l()?;
+        if l.len() != 23 {
+            return None;
+        }
+        let mut files = vec![];
+        for f in l[1].as_l()? {
+            let b: Vec<u8> = f.as_l()?.iter().map(|x| x.as_i().and_then(|i| u8::try_from(i).ok())).collect::<Option<_>>()?;
+            if b.len() > 8000 {
+                return None;
+            }
+            files.push(b);
+        }
+        if files.is_empty() || files.len() > 4 {
+            return None;
+        }
+        let s = BSpec {
+            files,
+            strategy: l[2].as_i()?,
+            seed: un_hl(&l[3])?,
+            epoch: l[4].as_usize()?,
+            pipe: PipeSpec::from_vals(&l[5], &l[6], &l[7], &l[8])?,
+            lim: l[9].as_i()?,
+            skip: l[10].as_usize()?,
+            ff: l[11].as_usize()?,
+            rank: l[12].as_usize()?,
+            world: l[13].as_usize()?,
+            sort: l[14].as_bool()?,
+            shuffle: l[15].as_bool()?,
+            prefetch: l[16].as_usize()?,
+            blim: l[17].as_usize()?,
+            ty: l[18].as_i()?,
+            threads: u8::try_from(l[19].as_usize()?).ok()?,
+            buffer: l[20].as_usize()?,
+            threads2: u8::try_from(l[21].as_usize()?).ok()?,
+            buffer2: l[22].as_usize()?,
+        };
+        if !(0..3).contains(&s.strategy) || !(0..2).contains(&s.ty) || s.seed > 1 << 40 || s.epoch > 1000 {
+            return None;
+        }
+        if s.world == 0 || s.world > 6 || s.rank >= s.world || s.skip > 10_000 || s.ff > 10_000 || s.lim > 10_000 {
+            return None;
+        }
+        if s.threads > 6 || s.threads2 > 6 || s.buffer > 16 || s.buffer2 > 16 || s.prefetch > 64 || s.blim > 100_000 {
+            return None;
+        }
+        Some(s)
+    }
+}
+
+fn bytes_gen(rng: &mut Rng) -> Val {
+    let nfiles = rng.range(1, 3);
+    let strategy = rng.below(3) as i64;
+    let pipe = gen_pipe_spec(rng, nfiles, true);
+    let json_in = rng.chance(1, 8);
+    let mut lines: Vec<Vec<Option<(String, String)>>> = (0..nfiles)
+        .map(|_| {
+            let n = if strategy == 2 && !rng.chance(1, 30) { rng.range(1, 10) } else { rng.range(0, 10) };
+            (0..n)
+                .map(|_| {
+                    if rng.chance(1, 9) {
+                        return None;
+                    }
+                    let (mut i, t) = gen_item_texts(rng, &pipe.task);
+                    if rng.chance(1, 25) {
+                        i.push('\u{e000}');
+                    }
+                    if json_in && !rng.chance(1, 6) {
+                        i = serde_json::to_string(&i).unwrap();
+                    }
+                    Some((i, t))
+                })
+                .collect()
+        })
+        .collect();
+    let mut pipe = pipe;
+    if json_in {
+        for c in pipe.cfgs.iter_mut() {
+            let c0 = c.clone();
+            *c = MCfg::Chain(vec![MCfg::JsonDecode(false), c0]);
+        }
+    }
+    let total: usize = lines.iter().map(|f| f.len()).sum();
+    let world = rng.range(1, 4);
+    let lim: i64 = if rng.chance(1, 3) { -1 } else { rng.range(0, total + 2) as i64 };
+    let skip = if rng.chance(1, 2) { 0 } else { rng.range(0, total / 2 + 1) };
+    let ff = if rng.chance(1, 3) { 0 } else { rng.range(0, total / 2 + 1) };
+    // broken lines where they matter: the start of the file, the start of the window, inside the first stride (the
+    // positions of the ranks), just in front of the window, at the limit
+    if rng.chance(2, 5) {
+        let w = skip + ff;
+        let cands = [0, w, w + 1, w + world - 1, w.saturating_sub(1), skip, (lim.max(1) - 1) as usize, lim.max(0) as usize];
+        for _ in 0..rng.range(1, 3) {
+            let pos = *rng.pick(&cands);
+            // positions are generator positions; for the sequential strategy they are positions in the concatenation
+            let mut p = pos;
+            for f in lines.iter_mut() {
+                if p < f.len() {
+                    f[p] = None;
+                    break;
+                }
+                p -= f.len();
+            }
+        }
+    }
+    // the weighted strategy needs non-empty files (constructor error otherwise; now and then kept)
+    let files: Vec<Vec<u8>> = lines.iter().map(|f| gen_bfile(rng, f)).collect();
+    BSpec {
+        files,
+        strategy,
+        seed: if rng.chance(1, 8) { rng.next_u64() >> 24 } else { rng.below(1000) as u64 },
+        epoch: rng.below(3),
+        pipe,
+        lim,
+        skip,
+        ff,
+        rank: rng.below(world),
+        world,
+        sort: rng.chance(1, 3),
+        shuffle: rng.chance(1, 2),
+        prefetch: rng.below(4),
+        blim: if rng.chance(1, 2) { rng.range(0, 6) } else { rng.range(20, 400) },
+        ty: rng.below(2) as i64,
+        threads: rng.below(5) as u8,
+        buffer: rng.below(5),
+        threads2: rng.below(5) as u8,
+        buffer2: rng.below(5),
+    }
+    .to_val()
+}
+
+impl C08 {
+    fn bytes_run(&self, input: &Val) -> Option<(Val, Vec<String>)> {
+        let s = BSpec::from_val(input)?;
+        std::fs::create_dir_all(&self.dir).ok()?;
+        let mut paths = vec![];
+        for (fi, f) in s.files.iter().enumerate() {
+            let p = self.dir.join(format!("b{fi}.jsonl"));
+            std::fs::write(&p, f).ok()?;
+            paths.push(p.to_string_lossy().to_string());
+        }
+        let mut tags = vec!["bytes".to_string(), format!("strategy{}", s.strategy), format!("world{}", s.world)];
+        s.pipe.tags(&mut tags);
+        let real = s.pipe.to_real();
+        let maxlen = s.pipe.maxlen;
+        let pipe = std::panic::catch_unwind(move || train_pipeline(real, maxlen));
+        reset_panic_hook();
+        // cross-check table: the pipeline applied single-threaded to every generator position; a panicking call makes the
+        // case invalid (see the exact line)
+        let mut table: Vec<Val> = vec![];
+        let mut n_err_lines = 0usize;
+        if let Ok(Ok((pipe, _))) = &pipe {
+            let seed = s.seed + s.epoch as u64;
+            let gens = paths.iter().map(train_data_generator_from_jsonl).collect::<anyhow::Result<Vec<_>>>().ok()?;
+            if let Ok(gen) = MultiTrainDataGenerator::new(gens, strategy_of(s.strategy), Some(seed)) {
+                for (pos, (data, file_idx)) in gen.enumerate() {
+                    match data {
+                        Ok(d) => {
+                            let info = TextDataInfo { file_idx, seed: seed + pos as u64, ..Default::default() };
+                            let pipe = pipe.clone();
+                            match std::panic::catch_unwind(std::panic::AssertUnwindSafe(move || pipe((d, info)))) {
+                                Err(_) => return None,
+                                Ok(Ok(it)) => table.push(titem_val(&it)),
+                                Ok(Err(_)) => (),
+                            }
+                        }
+                        Err(_) => n_err_lines += 1,
+                    }
+                }
+            }
+        }
+        let s2 = s.clone();
+        let out = with_timeout(20_000, move || {
+            let s = &s2;
+            let run = |threads: u8, buffer: usize| -> Result<(Option<usize>, Vec<Vec<Val>>, Vec<String>), ()> {
+                let args = TrainLoaderArgs {
+                    files: paths.clone(),
+                    pipeline: s.pipe.to_real(),
+                    strategy: strategy_of(s.strategy),
+                    num_threads: threads,
+                    buffer_size: buffer,
+                    batch_limit: s.blim,
+                    batch_limit_type: if s.ty == 0 { BatchLimitType::BatchSize } else { BatchLimitType::PaddedItemSize },
+                    max_length: s.pipe.maxlen,
+                    shuffle: s.shuffle,
+                    prefetch_factor: s.prefetch,
+                    sort: s.sort,
+                    seed: Some(s.seed),
+                    skip: s.skip,
+                    limit: if s.lim < 0 { None } else { Some(s.lim as usize) },
+                    distributed: Some((s.rank, s.world)),
+                    epoch: s.epoch,
+                    fast_forward: s.ff,
+                };
+                let r = std::panic::catch_unwind(std::panic::AssertUnwindSafe(|| train_loader_batches(args, None)));
+                reset_panic_hook();
+                let (min_items, batches) = match r {
+                    Ok(Ok(x)) => x,
+                    _ => return Err(()),
+                };
+                let mut bs = vec![];
+                let mut tensors = vec![];
+                for (items, t) in batches {
+                    bs.push(items.iter().map(titem_val).collect::<Vec<Val>>());
+                    tensors.push(format!("{:?}", t));
+                }
+                Ok((min_items, bs, tensors))
+            };
+            let a = run(s.threads, s.buffer);
+            let b = run(s.threads2, s.buffer2);
+            match (a, b) {
+                (Err(()), Err(())) => Val::L(vec![Val::I(0)]),
+                (Ok(a), Ok(b)) => {
+                    let same = a == b;
+                    let table_ok = a.1.iter().all(|b| b.iter().all(|it| table.contains(it)));
+                    Val::L(vec![
+                        Val::I(1),
+                        Val::u(a.0.unwrap_or(UNKNOWN_ITEM)),
+                        Val::L(a.1.into_iter().map(Val::L).collect()),
+                        Val::b(same),
+                        Val::b(table_ok),
+                    ])
+                }
+                _ => Val::L(vec![Val::I(-779)]),
+            }
+        });
+        let n_items: usize = out
+            .nth(2)
+            .and_then(|v| v.as_l())
+            .map(|bs| bs.iter().map(|b| b.as_l().map(|l| l.len()).unwrap_or(0)).sum())
+            .unwrap_or(0);
+        if s.shuffle {
+            tags.push("shuffle".into());
+        }
+        if s.sort {
+            tags.push("sort".into());
+        }
+        if s.threads > 0 || s.threads2 > 0 {
+            tags.push("threaded".into());
+        }
+        if n_err_lines > 0 {
+            tags.push("errlines".into());
+        }
+        if out.nth(0).and_then(|v| v.as_i()) == Some(0) {
+            tags.push("rejected".into());
+        }
+        if n_items >= 2 && (s.threads > 0 || s.threads2 > 0) {
+            tags.push("nt".into());
+        }
+        Some((out, tags))
+    }
+}
+
 impl Prop for C08 {
     fn gen(&mut self, rng: &mut Rng, _tier: Tier, i: usize, _n: usize) -> Val {
         // one scenario with an oracle table in ten cases; the others are cases over modelled pipelines
         match i % 10 {
             0 => (),
-            1 | 2 => return exact_gen(rng),
+            1 => return exact_gen(rng),
+            2 | 3 => return bytes_gen(rng),
+            4 | 5 => return item_gen(rng),
             _ => return direct_gen(rng),
         }
         let nfiles = rng.range(1, 3);
         let strategy = rng.below(3) as i64;
-        let pipeline = rng.below(4) as i64;
+        let pipeline = rng.below(5) as i64;
         let files: Vec<Vec<i64>> = (0..nfiles)
             .map(|_| {
                 let n = if strategy == 2 { rng.range(1, 12) } else { rng.range(0, 12) };
@@ -1424,7 +2488,7 @@ impl Prop for C08 {
 
     fn canon(&mut self, input: &Val) -> Option<Val> {
         let l = input.as_l()?;
-        if matches!(l.first().and_then(|k| k.as_i()), Some(-1) | Some(-2)) {
+        if matches!(l.first().and_then(|k| k.as_i()), Some(-1) | Some(-2) | Some(-3) | Some(-4)) {
             return Some(input.clone());
         }
         if l.len() != 11 {
@@ -1456,6 +2520,12 @@ impl Prop for C08 {
         }
         if l.first().and_then(|k| k.as_i()) == Some(-2) {
             return self.exact_run(input);
+        }
+        if l.first().and_then(|k| k.as_i()) == Some(-3) {
+            return self.bytes_run(input);
+        }
+        if l.first().and_then(|k| k.as_i()) == Some(-4) {
+            return item_run(input);
         }
         if l.len() != 11 {
             return None;
